@@ -43,6 +43,12 @@ Pristine state.  Every work item starts by importing the fakesnow package afresh
 fakesnow/__init__.py (besides reinstating the originals and un-importing the helper modules): behaviour is a function of
 the item / history alone, and module-level state of patch() is exercised *within* histories.
 
+CONNS.  Every sequence of up to 2 (thorough: 3) connections made inside one block, each by the thread that runs the
+block, by a thread started and joined inside the block, or (when a worker thread runs the block) by the main thread -
+never two threads at a time - x exit kind x storage (in memory, db_path).  After the block every one of them must raise
+when used, and a new patch() with the same storage must be enterable and usable (with db_path: the committed rows are
+there).
+
 OPTIONS (differential).  patch(**options) must behave like FakeSnow(**options) used directly, for the full product of
 option values (they reach the instance).
 
@@ -70,6 +76,11 @@ Clauses
                                    (the suffix marks attempts made after an earlier failed set-up of the history)
   C20.closed                       a connection obtained inside raises when used after the block was left
                                                                                          class  exit=<mode>
+                                   CONNS part: one verdict per connection  class  opened-by=<block-thread|new-thread|
+                                   main-thread>,exit=<mode>,storage=<memory|db_path>
+  C20.closed.storage_reusable      after the block a new patch() with the same storage can be entered, connect works and,
+                                   with db_path, the rows committed in the first block are there
+                                                         class  opened-by=<set of openers>,exit=<mode>,storage=<..>
   C20.exit_clean                   leaving normally does not raise; leaving with an exception does not raise a
                                    different one                                         class  exit=<mode>
   C20.nested.refused               enter while a block is open raises                    class  inner=<valid|failing>
@@ -80,6 +91,11 @@ Clauses
   C20.cli.args                     well-formed line naming a target: that target ran exactly once and its
                                    sys.argv[1:] are exactly the tokens after the target specification
                                           class  last-opt=<form of fakesnow's last own option>,target=<form>,targs=<0|n>
+                                   (an empty string among the target's arguments:  class target=<path|module>,
+                                   targs=n-with-empty-string; lines run as `python -m fakesnow ...` in a process of
+                                   their own: the same classes with the suffix ,entry=python -m fakesnow)
+                                   Target arguments: every sequence of length <= 3 (thorough 4) over '', '0', ' ', '--',
+                                   'a', '-d', '-m' after every way of naming the target, after every own-option spelling
   C20.cli.no_target                well-formed line without target / help: nothing is run
   C20.cli.malformed                malformed or unspecified line: nothing is run, or what ran received exactly the
                                    tokens after one of its possible specifications       class  status=<..>
@@ -101,7 +117,11 @@ Not demanded
     outside the token alphabet / classified "unspecified" by the reference;
   * for `-- PATH ARGS` (option terminator before the target) either a usage error or running PATH with exactly ARGS is
     accepted; running it with other arguments is not;
-  * which of several different -d values wins.
+  * which of several different -d values wins;
+  * an empty string in fakesnow's own part of the line (as the path, as a -d / -m value): only the target's arguments
+    range over the falsy-looking tokens;
+  * that connections of one instance made by different threads see each other's tables (C13's business): the CONNS
+    part only records it.
 """
 from __future__ import annotations
 
@@ -1357,10 +1377,11 @@ def run_cli(argv):
 
 def cli_shape(p):
     last = p.opt_forms[-1] if p.opt_forms else "none"
-    # (an empty string among the target's arguments is a shape of its own: a launcher that loses falsy arguments fails
-    # on every such line and on no other)
-    targs = "0" if not p.targs else ("n-with-empty-string" if "" in p.targs else "n")
-    return f"last-opt={last},target={p.target_form},targs={targs}"
+    # (an empty string among the target's arguments is a shape of its own, whatever precedes the target: a launcher
+    # that loses falsy arguments fails on every such line and on no other)
+    if "" in p.targs:
+        return f"target={p.target[0]},targs=n-with-empty-string"
+    return f"last-opt={last},target={p.target_form},targs={'n' if p.targs else '0'}"
 
 
 def judge_cli(argv, p, out, table=ref.DEFAULT_TABLE):
